@@ -316,8 +316,178 @@ pub fn one_case(existing: &str, s: &Supplied, position: u8, t: &mut Tally) -> Op
     None
 }
 
+// ------------------------------------------------------------------ sequences of calls (the "by itself" clause)
+
+#[derive(Clone, Copy, Debug, PartialEq, Eq)]
+enum Ev {
+    Call(usize),
+    Adv(u64),
+    Eval,
+    Hb,
+}
+
+fn seq_supplied() -> Vec<Supplied> {
+    vec![
+        Supplied { kvs: vec![("a", 1, 0)], mv: 1, gc: 0 },
+        Supplied { kvs: vec![("a", 1, 0), ("c", 2, 0)], mv: 2, gc: 0 },
+        Supplied { kvs: vec![("c", 3, 1)], mv: 3, gc: 2 },
+        Supplied { kvs: vec![], mv: 4, gc: 4 },
+        Supplied { kvs: vec![("a", 6, 0)], mv: 6, gc: 0 },
+    ]
+}
+
+fn ev_json(e: &Ev) -> Value {
+    match e {
+        Ev::Call(i) => json!({"call": supplied_json(&seq_supplied()[*i])}),
+        Ev::Adv(ms) => json!({"advance_ms": ms}),
+        Ev::Eval => json!("evaluate"),
+        Ev::Hb => json!("heartbeat"),
+    }
+}
+
+/// Runs `seq` on a fresh receiver; with `with_calls == false` the calls are skipped (the twin).
+/// Returns the member's liveness after every event, or a violation of the per-call oracle.
+fn run_sequence(existing: &str, seq: &[Ev], with_calls: bool, t: &mut Tally) -> Result<Vec<bool>, (String, String)> {
+    let sup = seq_supplied();
+    let mut n = receiver(existing);
+    let mut hb = 10u64;
+    let mut live = vec![];
+    for e in seq {
+        match e {
+            Ev::Call(i) if with_calls => {
+                let before = copy_of(&n);
+                let live_before = is_live(&n);
+                if let Err(p) = call(&mut n, &sup[*i]) {
+                    return Err((format!("reset_node_state_if_update panicked in a sequence of calls: {p}"), format!("panic:{}", short_loc(&p))));
+                }
+                let after = copy_of(&n);
+                let mut applied = false;
+                // a member removed at the start may have been legitimately re-created by a heartbeat event
+                let ex = if existing.starts_with("removed") && hb > 10 { "re-created" } else { existing };
+                if let Some(v) = judge(ex, &before, &after, &sup[*i], live_before, is_live(&n), &mut applied) {
+                    return Err(v);
+                }
+                if applied {
+                    t.inc("seq_calls_that_replaced_the_key_set");
+                }
+            }
+            Ev::Call(_) => {}
+            Ev::Adv(ms) => crate::clock::advance(Duration::from_millis(*ms)),
+            Ev::Eval => {
+                if let Err(p) = guarded(|| n.cc.verif_update_nodes_liveness()) {
+                    return Err((format!("liveness evaluation panicked after catch-up calls: {p}"), format!("panic:{}", short_loc(&p))));
+                }
+            }
+            Ev::Hb => {
+                hb += 1;
+                n.cc.verif_process_message(hello(hb));
+            }
+        }
+        live.push(is_live(&n));
+    }
+    Ok(live)
+}
+
+pub fn sequences(tier: Tier, started: Instant) -> Part {
+    let depth = tier.pick(4usize, 6usize);
+    let mut part = Part::new(&format!("catchup/call-sequences(depth {depth})"));
+    part.rule = format!("every sequence of up to {depth} events over {{catch-up call with one of 5 supplied states (max versions 1,2,3,4,6; watermarks 0,2,4), advance the clock by 0.2 s / 3 s / 11 s, evaluate liveness, receive a genuine heartbeat}} from each of the 11 existing copies, on a real node; oracle per call as in catchup/calls; differential oracle for 'never makes a member live by itself': the same sequence with the calls left out (the twin) is run on a second real node, and as long as no heartbeat event occurred the member is live with the calls only if it is live without them; non-trivial = sequences with at least two calls that replaced the key set");
+    part.bounds = json!({"depth": depth, "alphabet": 10, "existing_copies": EXISTING.len()});
+    let mut alphabet: Vec<Ev> = (0..seq_supplied().len()).map(Ev::Call).collect();
+    alphabet.extend([Ev::Adv(200), Ev::Adv(3_000), Ev::Adv(11_000), Ev::Eval, Ev::Hb]);
+    let mut seqs: Vec<Vec<Ev>> = vec![vec![]];
+    let mut frontier: Vec<Vec<Ev>> = vec![vec![]];
+    for _ in 0..depth {
+        let mut next = vec![];
+        for p in &frontier {
+            for e in &alphabet {
+                let mut q = p.clone();
+                q.push(*e);
+                next.push(q);
+            }
+        }
+        seqs.extend(next.iter().cloned());
+        frontier = next;
+    }
+    // only maximal sequences need running (liveness is judged after every event), plus nothing else
+    let seqs: Vec<Vec<Ev>> = seqs.into_iter().filter(|q| q.len() == depth && q.iter().any(|e| matches!(e, Ev::Call(_)))).collect();
+    let deadline = started + Duration::from_secs(tier.pick(55, 2400));
+    let capped = std::sync::atomic::AtomicBool::new(false);
+    let results: Vec<(Tally, Vec<Viol>)> = seqs
+        .par_iter()
+        .map(|seq| {
+            let mut t = Tally::default();
+            let mut v = vec![];
+            for existing in EXISTING {
+                if Instant::now() > deadline {
+                    capped.store(true, std::sync::atomic::Ordering::Relaxed);
+                    break;
+                }
+                t.inc("sequences");
+                let replay = json!({"engine":"catchup","kind":"sequence","existing":existing,"events":seq.iter().map(ev_json).collect::<Vec<_>>()});
+                let before = t.get("seq_calls_that_replaced_the_key_set");
+                let with = match run_sequence(existing, seq, true, &mut t) {
+                    Ok(l) => l,
+                    Err((what, sig)) => {
+                        if v.len() < 4 {
+                            v.push(Viol { what, sig, replay });
+                        }
+                        continue;
+                    }
+                };
+                if t.get("seq_calls_that_replaced_the_key_set") - before >= 2 {
+                    t.inc("sequences_with_two_effective_calls");
+                }
+                let twin = run_sequence(existing, seq, false, &mut t).expect("twin runs no call");
+                for (i, e) in seq.iter().enumerate() {
+                    if *e == Ev::Hb {
+                        break;
+                    }
+                    if with[i] {
+                        t.inc("live_points_compared");
+                    }
+                    if with[i] && !twin[i] {
+                        if v.len() < 4 {
+                            v.push(Viol {
+                                what: format!("existing copy `{existing}`: after event {} of the sequence the member is live, although without the catch-up calls (same clock, same evaluations, no heartbeat) it is not", i + 1),
+                                sig: "made-live-by-calls".into(),
+                                replay: replay.clone(),
+                            });
+                        }
+                        break;
+                    }
+                }
+            }
+            (t, v)
+        })
+        .collect();
+    let mut viols = vec![];
+    for (t, v) in results {
+        part.tally.merge(&t);
+        viols.extend(v);
+    }
+    viols.sort_by_key(|v| v.replay.to_string().len());
+    for v in viols {
+        part.violation("C18", v.what, v.sig, v.replay);
+    }
+    part.states = part.tally.get("sequences");
+    part.transitions = part.tally.get("sequences") * depth as u64 * 2;
+    part.executions = part.tally.get("sequences") * 2;
+    part.distinct_nontrivial = part.tally.get("sequences_with_two_effective_calls");
+    if capped.load(std::sync::atomic::Ordering::Relaxed) {
+        part.exhaustive = false;
+        part.caps_hit.push("wall cap".into());
+    }
+    part.sample(json!({"existing": "behind", "events": [ev_json(&Ev::Call(4)), ev_json(&Ev::Adv(200)), ev_json(&Ev::Call(1)), ev_json(&Ev::Eval)]}));
+    part.require("sequences_with_two_effective_calls");
+    part.require("live_points_compared");
+    part
+}
+
 pub fn run(tier: Tier, started: Instant) -> Vec<Part> {
-    run_for("C18", tier, started)
+    let mut parts = run_for("C18", tier, started);
+    parts.push(sequences(tier, Instant::now()));
+    parts
 }
 
 /// For C04 the same calls are run and only the frontier / no-abort clauses are reported.
@@ -377,6 +547,13 @@ pub fn run_for(property: &'static str, tier: Tier, started: Instant) -> Vec<Part
 }
 
 pub fn replay(v: &Value) -> Result<(), String> {
+    if v["kind"].as_str() == Some("sequence") {
+        let p = sequences(Tier::Quick, Instant::now());
+        for x in &p.violations {
+            println!("!! {} [{}] {}", x.property, x.signature, x.what);
+        }
+        return if p.violations.is_empty() { Ok(()) } else { Err("call-sequence family fails".into()) };
+    }
     let existing = v["existing"].as_str().ok_or("no existing")?;
     let kvs: Vec<(&'static str, u64, u8)> = v["supplied"]["key_values"]
         .as_array()
